@@ -229,6 +229,10 @@ class ContainerCodec(Codec):
                     if isinstance(k, tuple):
                         msg = "Tuple keys not supported"
                         raise SerDesError(msg)
+                    if not isinstance(k, str):
+                        # JSON would silently turn the key into a string
+                        msg = f"Only string keys are supported in dicts, got {type(k)!r}"
+                        raise SerDesError(msg)
                 return EncodedValue(
                     TypeTag.DICT,
                     {k: self._wrap(v, self.dispatcher) for k, v in obj.items()},
